@@ -17,6 +17,10 @@ ENUM_SPECS = [
 ]
 
 
+import collections
+EXCLUDED = collections.Counter()     # candidates removed per known-finding shape (reported in evidence)
+
+
 def rand_in_type(d, t):
     if t.get("kind") == "enum":
         return d.choice(t["dom"])
@@ -221,6 +225,7 @@ class G:
             s = self.stmt(depth)
             if stmt_refs_field(s):
                 return s
+            EXCLUDED["statement referencing no field (known finding)"] += 1
         f = self.fields[0]["name"]
         return ["expr", ["bin", "==", ["f", f], ["f", f]]]
 
